@@ -54,7 +54,7 @@ func genC13(t *rapid.T) *C13Case {
 	if c.Role == "acceptor" {
 		causes = append(causes, "acceptor-close")
 	} else {
-		causes = append(causes, "initiator-close", "first-write-fails")
+		causes = append(causes, "initiator-close", "first-write-fails", "context-cancel")
 	}
 	c.Cause = rapid.SampledFrom(causes).Draw(t, "cause")
 	// the life of the session up to the injection point
@@ -113,6 +113,12 @@ func genC13(t *rapid.T) *C13Case {
 		}
 	}
 	c.DeltaNs = rapid.SampledFrom([]int64{0, 0, 1, 1000, 1e6}).Draw(t, "delta")
+	if hasLogon(c.Prefix) && c.Prefix[len(c.Prefix)-1] != "logout-in" && c.Cause != "first-write-fails" && rapid.IntRange(0, 7).Draw(t, "peerSilence") == 0 {
+		// one more way a connection ends: the peer stays connected, reads, and says nothing; the
+		// session's watchdog probes it and then ends the connection itself
+		c.Cause = "peer-silence"
+		c.Partial, c.Parked, c.Burst, c.StopAt, c.ParkKind = 0, 0, 0, 0, "send"
+	}
 	return c
 }
 
@@ -317,6 +323,10 @@ func checkC13(c *C13Case, rec *evid.Rec) (vs []pbt.Violation) {
 		pendingAtInjection = conn.Pending() > 0 || c.Parked > 0
 		// the cause
 		switch c.Cause {
+		case "peer-silence":
+			tol := max(1, c.N/20)
+			T := time.Duration(c.N+tol) * time.Second
+			time.Sleep(2*T + T/5 + time.Second)
 		case "peer-close":
 			conn.PeerClose()
 		case "peer-reset":
@@ -344,6 +354,8 @@ func checkC13(c *C13Case, rec *evid.Rec) (vs []pbt.Violation) {
 			ar.A.Close()
 		case "initiator-close":
 			ir.I.Close()
+		case "context-cancel":
+			ir.Cancel() // the application cancels the context it made the handler from
 		case "first-write-fails":
 			// injected at set-up: the initiator's own Logon was the write that failed
 		case "bad-inbound":
@@ -535,7 +547,7 @@ func enumC13() []*C13Case {
 		if role == "acceptor" {
 			causes = append(causes, "acceptor-close")
 		} else {
-			causes = append(causes, "initiator-close")
+			causes = append(causes, "initiator-close", "context-cancel")
 		}
 		for _, buf := range []int{0, 1, 10} {
 			for _, fam := range families {
